@@ -1311,8 +1311,8 @@ def run(ctx):
         cases = [json.load(open(ctx.replay))['case']]
     else:
         eq0, _ = base_eq()
-        cases += [gen_fiber_case(rng) for _ in range(ctx.scale(180, 3000))]
-        cases += [gen_path_case(rng, eq0) for _ in range(ctx.scale(24, 400))]
+        cases += [gen_fiber_case(rng) for _ in range(ctx.scale(180, 2500))]
+        cases += [gen_path_case(rng, eq0) for _ in range(ctx.scale(24, 300))]
         cases += [gen_path_case(rng, eq0, max_units=rng.choice([3, 4, 4])) for _ in range(ctx.scale(6, 60))]
         cases += [gen_mb_case(rng) for _ in range(ctx.scale(12, 150))]
         cases += [gen_merge_case(rng) for _ in range(ctx.scale(80, 1500))]
@@ -1429,9 +1429,10 @@ def run(ctx):
     random.Random(0).shuffle(order)                 # spread the expensive (path) terms over the shards
     terms = [terms[i] for i in order]
     post = [post[i] for i in order]
-    lines = common.coq_eval('C05', 'Prelude Model.Fiber Run.C05', terms, per_file=ctx.scale(10, 40), prelude='Open Scope Q_scope.')
+    lines = common.coq_eval('C05', 'Prelude Model.Fiber Run.C05', terms, per_file=ctx.scale(10, 40), prelude='Open Scope Q_scope.',
+                            timeout=ctx.scale(900, 3600))
     flines = common.coq_eval('C05', 'Prelude Num NumRun Model.Raman Run.C05F', fterms, per_file=ctx.scale(20, 60), tag='fcases',
-                             prelude='Open Scope float_scope.')
+                             prelude='Open Scope float_scope.', timeout=ctx.scale(900, 3600))
     ctx.extra['coq_eval_seconds'] = round(time.time() - t_coq, 2)
     for (how, c, impl), model in zip(fpost, flines):
         diff_float_profile(ctx, how, c, impl, model)
